@@ -221,16 +221,26 @@ Print Assumptions C07_triaffine_entry.
 (* ------------------------------------------------------------------------------------------ *)
 (* Planar: y = x + u_hat * act(w.x + b)                                                       *)
 (* ------------------------------------------------------------------------------------------ *)
-(* get_act_scale: u_hat = u + (m(w.u) - w.u) w / ||w||^2  (guard w <> 0: the code divides by ||w||^2) *)
-Theorem C07_planar_u_is_spec : forall (w u : list R), length u = length w -> spec_inner ROps w w <> 0 ->
-  planar_u ROps w u = spec_planar_u ROps w u.
+(* get_act_scale: u_hat = u + (m(w.u)/k - w.u) w / ||w||^2, k = max(1, negative_slope) for leaky relu
+   and 1 for tanh  (guard w <> 0: the code divides by ||w||^2) *)
+Theorem C07_planar_k_is_spec : forall ns,
+  planar_k ROps ns = match ns with None => 1 | Some s => Rmax 1 s end.
+Proof. exact planar_k_max. Qed.
+Print Assumptions C07_planar_k_is_spec.
+
+Theorem C07_planar_u_is_spec : forall ns (w u : list R), length u = length w -> spec_inner ROps w w <> 0 ->
+  planar_u ROps ns w u = spec_planar_u ROps ns w u.
 Proof. exact planar_u_is_spec. Qed.
 Print Assumptions C07_planar_u_is_spec.
 
-(* what the constraint is for: w . u_hat = m(w . u) > -1 *)
-Theorem C07_planar_u_constraint : forall (w u : list R), length u = length w -> spec_inner ROps w w <> 0 ->
-  spec_inner ROps w (spec_planar_u ROps w u) = spec_m ROps (spec_inner ROps w u) /\
-  -1 < spec_inner ROps w (spec_planar_u ROps w u).
+(* what the constraint is for: w . u_hat = m(w . u)/k > -1/k, hence the map's two possible slopes along
+   w are positive: 0 < 1 + w . u_hat, and 0 < 1 + s (w . u_hat) for EVERY negative_slope s > 0 *)
+Theorem C07_planar_u_constraint : forall ns (w u : list R), length u = length w -> spec_inner ROps w w <> 0 ->
+  let a := spec_inner ROps w (spec_planar_u ROps ns w u) in
+  (a = spec_m ROps (spec_inner ROps w u) / spec_k ROps ns) /\
+  (-1 / spec_k ROps ns < a) /\
+  (0 < 1 + a) /\
+  (forall s, ns = Some s -> 0 < s -> 0 < 1 + s * a).
 Proof. exact planar_u_constraint. Qed.
 Print Assumptions C07_planar_u_constraint.
 
@@ -250,7 +260,7 @@ Print Assumptions C07_planar_is_spec.
 Theorem C07_planar_entry : forall ns (w u : list R) b (x : list R) i,
   length u = length w -> length x = length w -> spec_inner ROps w w <> 0 -> (i < length x)%nat ->
   nth i (planar_fwd ROps ns w u b x) 0 =
-  nth i x 0 + nth i (spec_planar_u ROps w u) 0 * spec_act ROps ns (spec_inner ROps w x + b).
+  nth i x 0 + nth i (spec_planar_u ROps ns w u) 0 * spec_act ROps ns (spec_inner ROps w x + b).
 Proof. exact planar_entry. Qed.
 Print Assumptions C07_planar_entry.
 
@@ -301,3 +311,13 @@ Qed.
 (* a planar weight vector that is not zero *)
 Example ex_planar_w : spec_inner ROps [1; 2] [1; 2] <> 0.
 Proof. unfold spec_inner. cbn [length sigma nth]. cbn [n_add n_mul n_ofZ ROps ROpsG Num.c]. lra. Qed.
+(* ... with negative_slope 3 > 1 (the case repaired by fix e65a946): k = 3 and both slopes are positive *)
+Example ex_planar_slope3 :
+  spec_k ROps (Some 3) = 3 /\
+  0 < 1 + 3 * spec_inner ROps [1; 2] (spec_planar_u ROps (Some 3) [1; 2] [-5; 1/2]).
+Proof.
+  split.
+  - unfold spec_k. cbn [n_leb n_ofZ ROps ROpsG Num.c]. destruct (Rleb 3 1) eqn:E; [apply Rleb_true in E; lra|reflexivity].
+  - destruct (planar_u_constraint (Some 3) [1; 2] [-5; 1/2] eq_refl ex_planar_w) as (_ & _ & _ & H).
+    apply (H 3 eq_refl). lra.
+Qed.
